@@ -121,7 +121,60 @@ def r2(ctx: Ctx, prog: sf.SqlProgram) -> None:
     ctx.check(joined and scoped and inner, 'R2', cons + '::children only', 'the rows updated are not exactly the jobs having this job as parent in this batch', r.file, r.line_of(st))
 
 
+NONTERMINAL = {'Pending', 'Ready', 'Creating', 'Running'}
+
+
+def _agg_eval(e: N, rows: List[Dict[str, object]], consts: Dict[str, object]):
+    """Evaluate a select-list expression of a GROUP BY sub-select over the rows of one group (aggregates: SUM, COUNT, MAX, MIN)."""
+    from engines.sqleval import Unbound
+
+    def row_env(row):
+        def env(c: N):
+            t = text(c).lower().replace('`', '')
+            if t in row:
+                return row[t]
+            if t in consts:
+                return consts[t]
+            last = t.split('.')[-1]
+            if last in row:
+                return row[last]
+            raise AnalysisError(f'recount sub-select reads `{t}` which the model does not provide')
+        return env
+    if e.kind == 'func' and e.name in ('SUM', 'COUNT', 'MAX', 'MIN'):
+        if e.name == 'COUNT' and e.args and e.args[0].kind == 'star':
+            return len(rows)
+        vals = [ev(e.args[0], row_env(r)) for r in rows]
+        vals = [int(v) if isinstance(v, bool) else v for v in vals if v is not None]
+        if e.name == 'COUNT':
+            return len(vals)
+        if not vals:
+            return None
+        return {'SUM': sum, 'MAX': max, 'MIN': min}[e.name](vals)
+    if e.kind == 'func' and e.name in ('COALESCE', 'IFNULL'):
+        for a in e.args:
+            v = _agg_eval(a, rows, consts)
+            if v is not None:
+                return v
+        return None
+    if e.kind == 'cast':
+        return _agg_eval(e.arg, rows, consts)
+    if e.kind == 'bin' and e.op in ('+', '-', '*'):
+        a, b = _agg_eval(e.left, rows, consts), _agg_eval(e.right, rows, consts)
+        if a is None or b is None:
+            return None
+        return {'+': a + b, '-': a - b, '*': a * b}[e.op]
+    if e.kind == 'lit':
+        return e.value
+    if e.kind == 'col':
+        # a grouping column: same for all rows
+        return row_env(rows[0])(e) if rows else None
+    raise AnalysisError(f'recount sub-select column `{text(e)[:60]}` uses a construct the model does not evaluate')
+
+
 def r3(ctx: Ctx, prog: sf.SqlProgram) -> None:
+    """Model evaluation of the commit-time recount: for every small multiset of parents (state or missing row, earlier update or same
+    update) and every stored n_pending_parents value reachable before the commit, the statement must leave the child with
+    n_pending_parents == number of non-terminal parents, Ready iff that is 0, cancelled raised iff a finished parent did not succeed."""
     r = prog.routine('commit_batch_update')
     sts = [(st, g) for st, g in sf.guarded_statements(r.ast.body) if st.kind == 'update' and sf.table_names(st.frm)[:1] == ['jobs']]
     ctx.need(len(sts) == 1, 'commit_batch_update: recount update not found')
@@ -131,66 +184,90 @@ def r3(ctx: Ctx, prog: sf.SqlProgram) -> None:
     ctx.need(len(der) == 1, 'commit_batch_update: recount sub-select not found')
     sub = der[0].select
     al = der[0].alias.lower()
-    cols = {(a or '').lower(): c for c, a in sub.cols}
-    ctx.need({'n_parents', 'n_pending_parents', 'n_succeeded'} <= set(cols), 'recount sub-select columns changed')
-    # truth table: per parent state, contribution to each sum
+    join = [j for j in st.frm.joins if j.ref is der[0]][0]
+    ctx.need(sf.table_names(sub.frm)[0].lower() == 'job_parents', 'recount sub-select is not driven from job_parents')
+    pj = [j for j in sub.frm.joins if j.ref.kind == 'table' and j.ref.name.lower() == 'jobs']
+    ctx.need(len(pj) == 1, 'recount sub-select does not join the parents\' job rows')
+    on = [text(c).lower().replace('`', '') for c in sf.conjuncts(pj[0].on)]
+    okj = '(jobs.job_id = job_parents.parent_id)' in on and '(jobs.batch_id = job_parents.batch_id)' in on
+    ctx.check(okj, 'R3', cons + '::parent join', 'the recount does not read each child\'s parents through job_parents.parent_id', r.file, r.line_of(st))
+    grp = sorted(text(g).lower().replace('`', '') for g in sub.group)
+    ctx.check(grp == ['job_parents.batch_id', 'job_parents.job_id'], 'R3', cons + '::grouping', f'parents are aggregated per {grp}, expected per child (batch_id, job_id)', r.file, r.line_of(st))
+    outer_on = [text(c).lower() for c in sf.conjuncts(join.on)]
+    ctx.check(f'(jobs.batch_id = {al}.batch_id)' in outer_on and f'(jobs.job_id = {al}.job_id)' in outer_on, 'R3', cons + '::child join', 'recount rows are not joined to the child by (batch_id, job_id)',
+              r.file, r.line_of(st))
+    START, N_JOBS, CHILD = 10, 10, 12
+    consts = {'in_batch_id': 1, 'cur_update_start_job_id': START, 'staging_n_jobs': N_JOBS, 'expected_n_jobs': N_JOBS, 'in_update_id': 2, 'in_timestamp': 1000}
+    options = [(s_, True) for s_ in STATES + [None]] + [('Pending', False)]
+    import itertools as it
+    parent_sets = [()] + [(o,) for o in options] + list(it.combinations_with_replacement(options, 2))
+    sets = [(c, v) for c, v in st.sets if c.kind == 'col' and (len(c.parts) == 1 or c.parts[-2].lower() == 'jobs')]
+    n_cases = 0
     bad = None
-    for s in STATES:
-        def env(c: N):
-            return s if text(c).lower().split('.')[-1] == 'state' else 1
-        vals = {}
-        for k in ('n_parents', 'n_pending_parents', 'n_succeeded'):
-            inner = sr.unwrap_sum(cols[k])
-            if inner is None:
-                raise AnalysisError(f'recount column {k} is not COALESCE(SUM(..), 0)')
-            vals[k] = int(ev(inner, env) or 0)
-        want = {'n_parents': 1, 'n_pending_parents': int(s not in TERMINAL), 'n_succeeded': int(s == 'Success')}
-        if vals != want:
-            bad = (s, vals, want)
-            break
-    ctx.check(bad is None, 'R3', cons + '::per-parent contributions', f'a parent in state {bad[0]} contributes {bad[1]} to the recount, expected {bad[2]} (pending = not terminal)' if bad else '',
-              r.file, r.line_of(st), detail={'states': 8})
-    # join: parents' states via job_parents.parent_id, grouped per child
-    on = [text(c).lower() for j in sub.frm.joins for c in sf.conjuncts(j.on)]
-    grp = sorted(text(g).lower() for g in sub.group)
-    okj = sf.table_names(sub.frm)[0].lower() == 'job_parents' and '(jobs.job_id = job_parents.parent_id)' in on and '(jobs.batch_id = job_parents.batch_id)' in on and \
-        grp == ['job_parents.batch_id', 'job_parents.job_id']
-    ctx.check(okj, 'R3', cons + '::parent join', 'the recount does not read each child\'s parents through job_parents.parent_id grouped per child', r.file, r.line_of(st))
-    outer_on = [text(c).lower() for j in st.frm.joins if j.ref is der[0] for c in sf.conjuncts(j.on)]
-    ctx.check(f'(jobs.batch_id = {al}.batch_id)' in outer_on and f'(jobs.job_id = {al}.job_id)' in outer_on and any(j.ref is der[0] and j.jtype == 'LEFT' for j in st.frm.joins), 'R3',
-              cons + '::child join', 'recount rows are not LEFT JOINed to the child by (batch_id, job_id) (jobs without parents must still become Ready)', r.file, r.line_of(st))
-    d = {text(c).lower().split('.')[-1]: v for c, v in st.sets if c.kind == 'col' and (len(c.parts) == 1 or c.parts[-2].lower() == 'jobs')}
+    for parents in parent_sets:
+        rows = []
+        for i, (pstate, earlier) in enumerate(parents):
+            pid = (3 + i) if earlier else 11
+            row = {'job_parents.batch_id': 1, 'job_parents.job_id': CHILD, 'job_parents.parent_id': pid, 'state': pstate, 'jobs.state': pstate,
+                   'jobs.job_id': pid if pstate is not None else None, 'jobs.batch_id': 1 if pstate is not None else None}
 
-    def table(expr: N, rows):
-        out = []
-        for n_par, n_pend, n_succ, old in rows:
-            def env(c: N):
-                t = text(c).lower()
-                if t == f'{al}.n_parents':
-                    return n_par
-                if t == f'{al}.n_pending_parents':
-                    return n_pend
-                if t == f'{al}.n_succeeded':
-                    return n_succ
-                if t.split('.')[-1] == 'cancelled':
-                    return old
-                raise AnalysisError(f'recount expression reads {t}')
-            out.append(ev(expr, env))
-        return out
-    rows = [(None, None, None, o) for o in (0, 1)]  # no parents at all (LEFT JOIN miss)
-    for n_par in range(1, 4):
-        for n_pend in range(0, n_par + 1):
-            for n_succ in range(0, n_par - n_pend + 1):
-                for o in (0, 1):
-                    rows.append((n_par, n_pend, n_succ, o))
-    st_vals = table(d['state'], rows)
-    want_state = ['Ready' if not (r_[1] or 0) else 'Pending' for r_ in rows]
-    ctx.check(st_vals == want_state, 'R3', cons + '::Ready iff no pending parent', 'state after commit is not Ready exactly when the recount of pending parents is 0', r.file, r.line_of(st), detail={'rows': len(rows)})
-    np_vals = table(d['n_pending_parents'], rows)
-    ctx.check(np_vals == [(r_[1] or 0) for r_ in rows], 'R3', cons + '::stored count', 'the stored n_pending_parents is not the recount (later completions would decrement a wrong number)', r.file, r.line_of(st))
-    c_vals = table(d['cancelled'], rows)
-    want_c = [(1 if ((r_[0] or 0) - (r_[1] or 0)) != (r_[2] or 0) else r_[3]) for r_ in rows]
-    ctx.check(c_vals == want_c, 'R3', cons + '::failure propagation', 'cancelled is not raised exactly when some already finished parent did not succeed', r.file, r.line_of(st))
+            def wenv(c: N, row=row):
+                t = text(c).lower().replace('`', '')
+                if t in row:
+                    return row[t]
+                if t in consts:
+                    return consts[t]
+                raise AnalysisError(f'recount WHERE reads `{t}`')
+            keep = all(bool(ev(c, wenv)) for c in sf.conjuncts(sub.where))
+            if keep:
+                rows.append(row)
+        tvals: Dict[str, object] = {}
+        matched = bool(rows)
+        if matched:
+            for c, a in sub.cols:
+                name = (a or text(c).split('.')[-1]).lower().replace('`', '')
+                tvals[name] = _agg_eval(c, rows, consts)
+        if not matched and join.jtype != 'LEFT':
+            outcomes = None  # child row not updated at all
+        n_term_earlier = sum(1 for pstate, earlier in parents if earlier and pstate is not None and pstate not in NONTERMINAL)
+        for k in range(0, n_term_earlier + 1):
+            v0 = len(parents) - k
+            for c_old in (0, 1):
+                n_cases += 1
+                cur = {'jobs.state': 'Pending', 'jobs.n_pending_parents': v0, 'jobs.cancelled': c_old}
+                if matched or join.jtype == 'LEFT':
+                    for col, val in sets:
+                        def oenv(c: N):
+                            t = text(c).lower().replace('`', '')
+                            if t.startswith(al + '.'):
+                                return tvals.get(t[len(al) + 1:]) if matched else None
+                            if t in cur:
+                                return cur[t]
+                            if 'jobs.' + t in cur:
+                                return cur['jobs.' + t]
+                            if t in consts:
+                                return consts[t]
+                            if t.startswith('jobs_telemetry.'):
+                                return None
+                            raise AnalysisError(f'recount SET reads `{t}`')
+                        cur['jobs.' + col.parts[-1].lower()] = ev(val, oenv)
+                want_pending = sum(1 for pstate, _ in parents if pstate in NONTERMINAL)
+                want_state = 'Ready' if want_pending == 0 else 'Pending'
+                failed = any(pstate is not None and pstate not in NONTERMINAL and pstate != 'Success' for pstate, _ in parents)
+                missing = any(pstate is None for pstate, _ in parents)
+                got = (cur['jobs.state'], cur['jobs.n_pending_parents'], cur['jobs.cancelled'])
+                ok = got[0] == want_state and got[1] == want_pending and (missing or bool(got[2]) == bool(failed or c_old))
+                if not ok and bad is None:
+                    bad = (parents, v0, c_old, got, (want_state, want_pending, int(failed or c_old)))
+    if bad:
+        parents, v0, c_old, got, want = bad
+        desc = [f'{"missing row" if s_ is None else s_}{"" if e_ else " (same update)"}' for s_, e_ in parents]
+        ctx.bad('R3', cons + '::model', f'child with parents {desc}, stored n_pending_parents={v0}, cancelled={c_old} before the commit ends as (state, n_pending_parents, cancelled)={got}; '
+                f'the dependency rule requires {want} (pending = parents not in a terminal state; a stored count already decremented by a parent that finished while the update was open '
+                'must not be decremented again, and a parent id without a job row must not block the child forever)', r.file, r.line_of(st), extra={'cases': n_cases})
+    else:
+        ctx.ok('R3', cons + '::model', {'cases': n_cases, 'parent_multisets': len(parent_sets)})
+    ctx.unit('recount_model_cases', n_cases)
 
 
 def r4(ctx: Ctx) -> None:
@@ -215,7 +292,7 @@ def run(ctx: Ctx) -> None:
     ctx.explanation = 'Clause-by-clause check of the three writers of dependency state and of the scheduler selections that consume the cancelled flag.'
     ctx.rule('R1', 'submission: Ready only for first-update jobs without parents; n_pending_parents = len(parent_ids); one job_parents row per parent', 4)
     ctx.rule('R2', 'parent completion: count - 1, Ready iff last pending parent (order-consistent threshold), cancelled iff parent not Success, exactly this job\'s children', 4)
-    ctx.rule('R3', 'commit recount: pending = non-terminal parents (8-state table), Ready iff 0 pending, stored count = recount, cancelled iff a finished parent failed', 6)
+    ctx.rule('R3', 'commit recount (model evaluation over parent multisets x reachable stored counts): pending = non-terminal parents, Ready iff 0, cancelled iff a finished parent failed', 4)
     ctx.rule('R4', 'schedulers start non-always-run jobs only with cancelled = 0; always-run jobs regardless', 4)
     ctx.assume('MySQL applies the SET assignments of an UPDATE left to right, later assignments seeing earlier new values (documented for single-table UPDATE; the repository relies on it for the multi-table children update)')
     prog = sf.load_program()
